@@ -51,6 +51,15 @@ def gen(rng, tier):
             toks.insert(rng.choice([len(toks), len(toks), rng.randrange(len(toks) + 1)]), "80:" + R.hexs(R.rand_bytes(rng, rng.choice([0, 1, 4, 4, 15, 17, 32]))))
         auth = bytes(16) if code == 4 else R.rand_bytes(rng, 16)
         cs.append(Case(f"serialize {R.hexs(sec) if rng.random() < 0.9 else '.'} {code} {rng.randrange(256)} {R.hexs(auth)} " + " ".join(toks), kind="serialize", forwarded=True))
+    # a server discovered by an external lookup command that prints its own server block: the secret that block sets (or, when it sets
+    # none, the template block's) is what requests to it are authenticated under — the whole of it, and nothing else
+    for _ in range(60 if tier == "quick" else 1500):
+        tsec = bytes(rng.choice(b"abcdefghijklmnopqrstuvwxyz0123456789") for _ in range(rng.choice([1, 2, 6, 6, 16, 17, 40])))
+        own = rng.random() < 0.75
+        dsec = bytes(rng.choice(b"ABCDEFGHIJKLMNOPQRSTUVWXYZ0123456789") for _ in range(rng.choice([1, 2, 3, 6, 12, 32, 64]))) if own else None
+        block = b"server dynamic {\n  host 127.0.0.1:1\n  type tcp\n" + (b"  secret " + dsec + b"\n" if own else b"") + b"}\n"
+        ident = rng.choice([b"bob@example.org", b"a@b.c", b"x@y", b"nobody", b"u@bad realm"])
+        cs.append(Case("dynconf %s %s %s %s" % (tsec.hex(), ident.hex(), block.hex(), dsec.hex() if own else "."), kind="dynconf", forwarded=True))
     return cs
 
 
